@@ -312,11 +312,49 @@ func shorten(name string) string {
 }
 
 func (fv *FuncVer) unknownCall(st *State, ins ssa.Instruction, name string, sig *types.Signature, args []Val, pure bool) Val {
-	fv.recordEvent(st, name, args, nil, ins)
+	var ats []*Term
+	for _, a := range args {
+		ats = append(ats, fv.safeTerm(a))
+	}
 	if !pure {
 		fv.havocAll(st, "call to "+name)
 	}
-	return fv.resultVal(st, name, sig)
+	r := fv.resultVal(st, name, sig)
+	var rts []*Term
+	switch x := r.(type) {
+	case *Term:
+		rts = []*Term{x}
+	case *Tuple:
+		for _, v := range x.Vals {
+			rts = append(rts, v.(*Term))
+		}
+	}
+	fv.recordEventT(st, name, ats, rts, ins)
+	fv.typeLastEvent(st, sig, len(ats))
+	return r
+}
+
+// typeLastEvent attaches Go types to the arguments and results of the last event.
+func (fv *FuncVer) typeLastEvent(st *State, sig *types.Signature, nargs int) {
+	if sig == nil || len(st.events) == 0 {
+		return
+	}
+	ev := &st.events[len(st.events)-1]
+	ps := sig.Params()
+	off := nargs - ps.Len() // receiver, if any
+	ev.ArgTypes = make([]types.Type, nargs)
+	for i := 0; i < nargs; i++ {
+		if i < off {
+			if sig.Recv() != nil {
+				ev.ArgTypes[i] = sig.Recv().Type()
+			}
+			continue
+		}
+		ev.ArgTypes[i] = ps.At(i - off).Type()
+	}
+	for i := 0; i < sig.Results().Len(); i++ {
+		ev.ResTypes = append(ev.ResTypes, sig.Results().At(i).Type())
+	}
 }
 
 // callbackCall: call through a function-typed parameter or unknown function value.
@@ -451,6 +489,14 @@ func (fv *FuncVer) havocKeys(st *State, keys []string) {
 	}
 	for _, k := range keys {
 		switch {
+		case strings.HasPrefix(k, "pointee|"):
+			pe := fv.pointees[k]
+			hs := fv.heapSorts[pe.key]
+			if hs == nil {
+				continue
+			}
+			h := fv.heap(st, pe.key, hs)
+			st.heaps[pe.key] = fv.ctx.Name("h", Store(h, pe.ref, fv.ctx.Fresh("pointee", hs.Elem)))
 		case strings.HasPrefix(k, "ghost:"), strings.HasPrefix(k, "global:"):
 			name := strings.TrimPrefix(strings.TrimPrefix(k, "global:"), "ghost:")
 			if strings.HasPrefix(k, "ghost:") {
@@ -613,6 +659,7 @@ func (fv *FuncVer) applyContract(st *State, ins ssa.Instruction, blk *Block, ful
 		fv.store(st, b.orig, fv.load(st, b.tmp))
 	}
 	fv.recordEventT(st, short, ats, rts, ins)
+	fv.typeLastEvent(st, sig, len(ats))
 	return r
 }
 
@@ -717,6 +764,20 @@ func (fv *FuncVer) parseAssigns(s string, env *SpecEnv) []string {
 			t := fv.eng.parseType(strings.TrimPrefix(it, "elems:"), env.pkg)
 			k, _ := fv.elemsKey(t)
 			out = append(out, k)
+		case strings.HasPrefix(it, "pointee:"):
+			// the single heap object an interface- or pointer-typed parameter points to
+			name := strings.TrimSpace(strings.TrimPrefix(it, "pointee:"))
+			v, ok := env.vars[name]
+			if !ok || v.T == nil {
+				panic(specError("assigns pointee:" + name + ": unknown parameter"))
+			}
+			k := fv.pointeeKey(v)
+			if k == "" {
+				// dynamic type unknown at this call: over-approximate
+				out = append(out, "*")
+			} else {
+				out = append(out, k)
+			}
 		case strings.HasPrefix(it, "map:"):
 			t := fv.eng.parseType(strings.TrimPrefix(it, "map:"), env.pkg)
 			mt := t.Underlying().(*types.Map)
@@ -759,4 +820,40 @@ func paramOf(v ssa.Value) *ssa.Parameter {
 		}
 	}
 	return nil
+}
+
+
+type pointee struct {
+	key string // heap key
+	ref *Term
+	typ types.Type
+}
+
+// pointeeKey registers the heap object v points to (v: a pointer, or an interface made from a pointer).
+func (fv *FuncVer) pointeeKey(v SVal) string {
+	var et types.Type
+	var ref *Term
+	if v.Typ != nil {
+		if pt, ok := types.Unalias(v.Typ).Underlying().(*types.Pointer); ok {
+			et, ref = pt.Elem(), v.T
+		}
+	}
+	if et == nil {
+		r := resolve(v.T)
+		if t, ok := fv.ifaceTypes[r.Op]; ok && len(r.Args) == 1 {
+			if pt, ok := types.Unalias(t).Underlying().(*types.Pointer); ok {
+				et, ref = pt.Elem(), r.Args[0]
+			}
+		}
+	}
+	if et == nil {
+		return ""
+	}
+	hk, _ := fv.heapKey(et)
+	id := fmt.Sprintf("pointee|%s|%s", hk, ref.String())
+	if fv.pointees == nil {
+		fv.pointees = map[string]pointee{}
+	}
+	fv.pointees[id] = pointee{hk, ref, et}
+	return id
 }
